@@ -8,7 +8,7 @@ import sim_common
 
 def run(tier, seed):
     chk = vlib.Check("C07", tier, seed)
-    n = 130 if tier == "quick" else 3000
+    n = 130 if tier == "quick" else 1500
     cases = sim_common.make_cases("C07", tier, seed, n, variants=(0, 0, 1, 0), fp_levels=(2, 10, 3, 1, 10), sizes=(0, 0, 0, 1),
                                   threads=[2, 3, 4, 8, 2, 16, 5, 12], gvts=[0, 20, 1000, 300, 5000])
     # half of the cases: a sparse LP (done after 1-2 rarely arriving events) and many threads, so that a cancelled terminating event leaves
